@@ -348,6 +348,63 @@ VARIANTS["C05"] = [
     R("add_nodes_from-dict-merge-form", HG, "                newdict = attr.copy()\n                newdict.update(ndict)\n            if newnode:\n                self._node[n] = set()", "                newdict = {**attr, **ndict}\n            if newnode:\n                self._node[n] = set()"),
 ]
 
+# --------------------------------------------------------------------------- C09
+CL = "xgi/algorithms/clustering.py"
+CE = "xgi/algorithms/centrality.py"
+HM = "xgi/linalg/hypergraph_matrix.py"
+LM = "xgi/linalg/laplacian_matrix.py"
+VARIANTS["C09"] = [
+    M("local-clustering-members-list", CL, "    members = H.edges.members(dtype=dict)\n", "    members = H.edges.members()\n", "K1", "local_clustering_coefficient"),
+    M("incidence-rows-by-label", HM, "            rows.append(node_dict[node])\n", "            rows.append(node)\n", None, "incidence_matrix", exit2_ok=False, skip_reason="rows list feeds a matrix constructor; see C12 variant"),
+    M("adjacency-tensor-label-index", HM, "        edge_node_ids = [nodedict[node] for node in edge]\n        for node_idx in permutations(edge_node_ids, order + 1):\n            B[node_idx] = 1", "        for node_idx in permutations(edge, order + 1):\n            B[node_idx] = 1", "K1", "adjacency_tensor"),
+    M("nodestat-degree-by-position", "xgi/stats/nodestats.py", "        return {n: len(net._node[n]) for n in bunch}", "        return {n: len(net._node[i]) for i, n in enumerate(bunch)}", "K2", "degree"),
+    M("trie-search-unsorted", "xgi/utils/trie.py", "    def search(self, word):\n        node = self.root\n        for char in sorted(word):", "    def search(self, word):\n        node = self.root\n        for char in word:", "K-CANON", "search"),
+    M("trie-keys-differ", "xgi/utils/trie.py", "    def insert(self, word):\n        node = self.root\n        for char in sorted(word):", "    def insert(self, word):\n        node = self.root\n        for char in sorted(word, key=str):", "K-CANON"),
+    R("local-clustering-explicit-dict", CL, "    members = H.edges.members(dtype=dict)\n", "    members = {e: H.edges.members(e) for e in H.edges}\n"),
+    R("trie-sort-hoisted", "xgi/utils/trie.py", "    def search(self, word):\n        node = self.root\n        for char in sorted(word):", "    def search(self, word):\n        node = self.root\n        word = sorted(word)\n        for char in word:"),
+]
+VARIANTS["C09"] = [v for v in VARIANTS["C09"] if v.get("rule") is not None or v["kind"] == "refactor"]
+
+# --------------------------------------------------------------------------- C12
+VARIANTS["C12"] = [
+    M("adjacency-tensor-label-index", HM, "        edge_node_ids = [nodedict[node] for node in edge]\n        for node_idx in permutations(edge_node_ids, order + 1):\n            B[node_idx] = 1", "        for node_idx in permutations(edge, order + 1):\n            B[node_idx] = 1", "K1", "adjacency_tensor"),
+    M("rowdict-from-sorted-nodes", HM, "        rowdict = {v: k for k, v in node_dict.items()}\n        coldict = {v: k for k, v in edge_dict.items()}\n\n    # Compute", "        rowdict = dict(enumerate(sorted(node_ids)))\n        coldict = {v: k for k, v in edge_dict.items()}\n\n    # Compute", "M-MAP", "incidence_matrix"),
+    M("rowdict-is-edge-map", HM, "        rowdict = {v: k for k, v in node_dict.items()}\n        coldict = {v: k for k, v in edge_dict.items()}\n\n    # Compute", "        rowdict = {v: k for k, v in edge_dict.items()}\n        coldict = {v: k for k, v in edge_dict.items()}\n\n    # Compute", "M-MAP", "incidence_matrix"),
+    M("multiorder-rowdict-filtered", LM, "    rowdict = {i: v for i, v in enumerate(H.nodes)}", "    rowdict = {i: v for i, v in enumerate(H.nodes.filterby(\"degree\", 1, \"geq\"))}", "M-MAP", "multiorder_laplacian"),
+    M("adjacency-empty-branch-unassigned", HM, "        if not rowdict:\n            A = csr_array((0, 0)) if sparse else np.empty((0, 0))\n        if not coldict:\n            shape = (H.num_nodes, H.num_nodes)", "        if rowdict:\n            A = csr_array((0, 0)) if sparse else np.empty((0, 0))\n        if coldict:\n            shape = (H.num_nodes, H.num_nodes)", "M-EMPTY", "adjacency_matrix"),
+    M("multiorder-normaliser-from-laplacian", LM, "    Ks = [degree_matrix(H, order=d) for d in orders]", "    Ks = [L.diagonal() / d for L, d in zip(Ls, orders)]", "M-NORM", "multiorder_laplacian"),
+    R("incidence-maps-comprehension", HM, "    node_dict = dict(zip(node_ids, range(num_nodes)))", "    node_dict = {n: i for i, n in enumerate(node_ids)}"),
+]
+
+# --------------------------------------------------------------------------- C16
+UNI2 = "xgi/generators/uniform.py"
+VARIANTS["C16"] = [
+    M("hsbm-product-unstarred", UNI2, "            edges = itertools.product(*(partition[i] for i in block))", "            edges = itertools.product((partition[i] for i in block))", "G-MEMBER", "uniform_HSBM"),
+    M("er-loop-drops-last-index", UNI2, "    while index <= max_index:\n        e = set(f(index, n, m))", "    while index < max_index:\n        e = set(f(index, n, m))", "G-SKIP", "uniform_erdos_renyi_hypergraph"),
+    M("hsbm-loop-overruns", UNI2, "            while index < max_index:\n                indices = _index_to_edge_partition", "            while index <= max_index:\n                indices = _index_to_edge_partition", "G-SKIP", "uniform_HSBM"),
+    M("fast-random-first-index", "xgi/generators/random.py", "            index = geometric(p) - 1  # -1 b/c zero indexing\n            max_index = comb(n, d + 1, exact=True) - 1", "            index = geometric(p)\n            max_index = comb(n, d + 1, exact=True) - 1", "G-SKIP", "fast_random_hypergraph"),
+    M("er-forgets-nodes", UNI2, "    H = empty_hypergraph()\n    H.add_nodes_from(range(n))\n\n    if multiedges:", "    H = empty_hypergraph()\n\n    if multiedges:", "G-NODES", "uniform_erdos_renyi_hypergraph"),
+    M("ring-lattice-forgets-nodes", "xgi/generators/lattice.py", "    H = Hypergraph(edges)\n    H.add_nodes_from(range(n))\n    return H", "    H = Hypergraph(edges)\n    return H", "G-NODES", "ring_lattice"),
+    M("geometric-p1-returns-zero", UT, "    except ValueError:\n        # when p = 1\n        return 1", "    except ValueError:\n        # when p = 1\n        return 0", "G-P01", "geometric"),
+    M("partition-decoder-prefix-strides", UNI2, "            int(index // np.prod(partition_sizes[r + 1 :]) % partition_sizes[r])", "            int(index // np.prod(partition_sizes[:r]) % partition_sizes[r])", "G-RADIX"),
+    M("prod-decoder-wrong-base", UNI2, "    return [(index // (n**r) % n) for r in range(m - 1, -1, -1)]", "    return [(index // (m**r) % n) for r in range(m - 1, -1, -1)]", "G-RADIX"),
+    R("nodes-range-bound-first", UNI2, "    H = empty_hypergraph()\n    H.add_nodes_from(range(n))\n\n    if multiedges:", "    nodes = range(n)\n    H = empty_hypergraph()\n    H.add_nodes_from(nodes)\n\n    if multiedges:"),
+    R("er-bound-without-minus-one", UNI2, "        max_index = comb(n, m, exact=True) - 1\n        f = _index_to_edge_comb\n\n    index = geometric(q) - 1  # -1 b/c zero indexing\n    while index <= max_index:", "        max_index = comb(n, m, exact=True) - 1\n        f = _index_to_edge_comb\n\n    index = geometric(q) - 1  # -1 b/c zero indexing\n    stop = max_index + 1\n    while index < stop:"),
+]
+
+# --------------------------------------------------------------------------- C20
+LAY2 = "xgi/drawing/layout.py"
+DRW = "xgi/drawing/draw.py"
+VARIANTS["C20"] = [
+    M("barycenter-layout-returns-phantoms", LAY2, "    # Retaining only the positions of the real nodes\n    pos = {k: pos_with_phantom_nodes[k] for k in list(H.nodes)}\n\n    if return_phantom_graph:\n        return pos, G\n    else:\n        return pos\n\n\ndef weighted_barycenter_spring_layout", "    pos = pos_with_phantom_nodes\n\n    if return_phantom_graph:\n        return pos, G\n    else:\n        return pos\n\n\ndef weighted_barycenter_spring_layout", "L-KEYS", "barycenter_spring_layout"),
+    M("circular-layout-keys-by-position", LAY2, "        pos = dict(zip(list(H.nodes), pos))\n\n    return pos\n\n\ndef spiral_layout", "        pos = dict(zip(range(len(H)), pos))\n\n    return pos\n\n\ndef spiral_layout", "L-KEYS", "circular_layout"),
+    M("draw-nodes-sorted-order", DRW, "    ax, pos = _draw_init(H, ax, pos)\n\n    # convert pos to format convenient for scatter\n    try:\n        xy = np.asarray([pos[v] for v in H.nodes])\n    except KeyError as err:\n        raise XGIError(f\"Node {err} has no position.\") from err\n\n    # convert all formats to ndarray\n    node_size = _draw_arg_to_arr(node_size)", "    ax, pos = _draw_init(H, ax, pos)\n\n    # convert pos to format convenient for scatter\n    try:\n        xy = np.asarray([pos[v] for v in sorted(H.nodes)])\n    except KeyError as err:\n        raise XGIError(f\"Node {err} has no position.\") from err\n\n    # convert all formats to ndarray\n    node_size = _draw_arg_to_arr(node_size)", "L-ORDER", "draw_nodes", exit2_ok=True),
+    M("edge-positions-by-index", LAY2, "    for idx, e in H.edges.members(dtype=dict).items():\n        edge_pos[idx] = np.mean([node_pos[n] for n in e], axis=0)", "    for idx, e in enumerate(H.edges.members()):\n        edge_pos[idx] = np.mean([node_pos[n] for n in e], axis=0)", None, "edge_positions_from_barycenters"),
+    M("pca-keys-fine-but-pos-indexed-by-position", LAY2, "        edge_pos[idx] = np.mean([node_pos[n] for n in e], axis=0)", "        edge_pos[idx] = np.mean([node_pos[i] for i, n in enumerate(e)], axis=0)", "K2", "edge_positions_from_barycenters"),
+    R("barycenter-filter-via-loop", LAY2, "    # Retaining only the positions of the real nodes\n    pos = {k: pos_with_phantom_nodes[k] for k in list(H.nodes)}\n\n    if return_phantom_graph:\n        return pos, G\n    else:\n        return pos\n\n\ndef weighted_barycenter_spring_layout", "    # Retaining only the positions of the real nodes\n    pos = {k: pos_with_phantom_nodes[k] for k in H.nodes}\n\n    if return_phantom_graph:\n        return pos, G\n    else:\n        return pos\n\n\ndef weighted_barycenter_spring_layout"),
+]
+VARIANTS["C20"] = [v for v in VARIANTS["C20"] if v.get("rule") is not None or v["kind"] == "refactor"]
+
 
 def variants_for(prop):
     return list(VARIANTS.get(prop, []))
